@@ -86,6 +86,9 @@ def bind (cfg : Cfg) (trig : List String) (s : Sig) (args : List Nat) (kw : KW) 
 
 end PS
 
-def Current.cfg : Cfg := { posonlyKwToKwargs := false }
+def Current.cfg : Cfg := { posonlyKwToKwargs := true }
+
+/-- before the `fix:` commit -/
+def Cfg.preFix : Cfg := { posonlyKwToKwargs := false }
 
 end PsModel.C03
